@@ -210,6 +210,8 @@ def cmdTgRender (args0 : List String) : String :=
     | some k => (maskGraph x (.inp 1) k).render | none => "bad-op"
   | ["nonzero", code, rank, i] => match parseNat? code, parseNat? rank, parseNat? i with
     | some c, some r, some i => (nonzeroGraph x c r i).render | _, _, _ => "bad-op"
+  | ["intindex", code] => match parseNat? code with                            -- x = in0, index = in1
+    | some c => (intIndexGraph x (.inp 1) c).render | none => "bad-op"
   | ["ndindex", rank] => match parseNat? rank with
     | some r => (ndindexGraph x r).render | none => "bad-op"
   | [fn, t, rank, axis, kd, dt] =>
